@@ -77,6 +77,8 @@ fn main() {
             let mut rep = Report::new("C03", tier, "model_checking", "sim");
             rep.rule = "stateless enumeration of every sequence of <=2 (quick) / <=3 (thorough) partition / partition_oneway / repair / repair_oneway calls at every step, from the Sim handle or host code, either registration order of A and B, numbered UDP datagrams every step with a fixed 2-tick latency; with fail/repair rates 0.5 the link coins are answered by the explorer through the cfg-guarded hook (deviation-bounded); forbidden datagrams must never be received, others exactly once on time (fail rate 0)".into();
             run_dfs(&mut rep, "partitions-3hosts", tier.pick(2, 3), wall, move |ch| flow::c03_scenario(ch, thorough));
+            run_dfs(&mut rep, "zero-latency-elapsed-counts-as-arrived", 0, wall, move |ch| flow::c03_zero_latency_scenario(ch, thorough));
+            run_dfs(&mut rep, "tcp-replies-under-a-partition", 0, wall, move |ch| flow::c03_tcp_scenario(ch, thorough));
             rep.finish();
         }
         "C14" => {
@@ -255,7 +257,15 @@ fn replay(path: &str) {
                 flow::c08_scenario(&mut ch, thorough)
             }
         }
-        "C03" => flow::c03_scenario(&mut ch, thorough),
+        "C03" => {
+            if v["scenario"].as_str().map(|s| s.starts_with("c03-zero")).unwrap_or(false) {
+                flow::c03_zero_latency_scenario(&mut ch, thorough)
+            } else if v["scenario"].as_str().map(|s| s.starts_with("c03-tcp")).unwrap_or(false) {
+                flow::c03_tcp_scenario(&mut ch, thorough)
+            } else {
+                flow::c03_scenario(&mut ch, thorough)
+            }
+        }
         "C14" => flow::c14_scenario(&mut ch, thorough),
         "C12" => {
             if v["scenario"].as_str().map(|s| s.starts_with("c12-partition")).unwrap_or(false) {
